@@ -50,7 +50,7 @@ def validate(text):
         with contextlib.redirect_stdout(buf):
             valid, process = parse_string(text)
     except BaseException as exc:  # noqa: BLE001 - the point is to see everything that escapes
-        if isinstance(exc, KeyboardInterrupt):
+        if isinstance(exc, KeyboardInterrupt) or type(exc).__name__ == "CaseTimeout":
             raise
         return "raised", buf.getvalue(), exc
     return ("valid" if valid else "invalid"), buf.getvalue(), process
